@@ -1156,7 +1156,7 @@ impl ConstElem for ValueKind {
         let elem_vk = ValueKind::from_le(&bytes[cursor.position() as usize..]);
         cursor.set_position(cursor.position() + 1); // advance past elem_vk tag
         let dim_count = cursor.read_u32::<LittleEndian>().expect("read matrix dim count") as usize;
-        let mut dims = Vec::with_capacity(dim_count);
+        let mut dims = Vec::with_capacity(dim_count.min(bytes.len()));
         for _ in 0..dim_count {
             dims.push(cursor.read_u32::<LittleEndian>().expect("read matrix dim") as usize);
         }
@@ -1171,7 +1171,7 @@ impl ConstElem for ValueKind {
       #[cfg(feature = "table")]
       26 => {
         let field_count = cursor.read_u32::<LittleEndian>().expect("read table fields length") as usize;
-        let mut fields = Vec::with_capacity(field_count);
+        let mut fields = Vec::with_capacity(field_count.min(bytes.len()));
         for _ in 0..field_count {
           let name = String::from_le(&bytes[cursor.position() as usize..]);
           let mut buf = Vec::new();
@@ -1208,7 +1208,8 @@ impl ConstElem for ValueKind {
 // helper to read a length-prefixed string from cursor
 fn read_string_from_cursor(cursor: &mut std::io::Cursor<&[u8]>) -> Vec<u8> {
   let len = cursor.read_u32::<LittleEndian>().expect("read string len") as usize;
-  let mut buf = vec![0u8; len];
+  let remaining = cursor.get_ref().len().saturating_sub(cursor.position() as usize);
+  let mut buf = vec![0u8; len.min(remaining.saturating_add(1))];
   cursor.read_exact(&mut buf).expect("read string bytes");
   buf
 }
@@ -1372,7 +1373,7 @@ impl ConstElem for MechSet {
       .read_u32::<LittleEndian>()
       .expect("read set element count") as usize;
     // 3) read each Value (advance cursor using each value's encoded length)
-    let mut set = IndexSet::with_capacity(num_elements);
+    let mut set = IndexSet::with_capacity(num_elements.min(data.len()));
     for _ in 0..num_elements {
       let pos = cursor.position() as usize;
       let value = Value::from_le(&data[pos..]);
@@ -1412,7 +1413,7 @@ impl ConstElem for MechTuple {
       .read_u32::<LittleEndian>()
       .expect("read tuple element count") as usize;
     // 3) Read each element
-    let mut elements: Vec<Box<Value>> = Vec::with_capacity(num_elements);
+    let mut elements: Vec<Box<Value>> = Vec::with_capacity(num_elements.min(data.len()));
     for _ in 0..num_elements {
       let pos = cursor.position() as usize;
       let value = Value::from_le(&data[pos..]);
